@@ -175,23 +175,43 @@ def r2_candidates(ctx):
     if fn is None:
         r.missing("Locale::is_possible_plural")
         return r
-    t = flatp(show(fn.body))
-    m = re.search(r"ifmatches!value,([^{]*)\{returnNone;?\}", t)
-    kinds = set(re.findall(r"ParsedValue::([A-Z][a-z]+)", m.group(1))) if m else set()
-    if not {"Ranges", "Subkeys", "Default"} <= kinds:
-        r.viol("R2:is_possible_plural#excluded", "value kinds excluded from plural candidates are %s (must contain Ranges, Subkeys, Default)" % sorted(kinds), file=fn.file, line=fn.line)
-    else:
-        r.inst("is_possible_plural#excluded", "excluded value kinds: " + ", ".join(sorted(kinds)))
-    steps = {
-        "suffix": "letbase_key,suffix=key.name.rsplit_once'_'?;",
-        "ordinal": 'matchbase_key.strip_suffix"_ordinal"{Somebase_key=>base_key,PluralRuleType::Ordinal;None=>base_key,PluralRuleType::Cardinal}',
-        "form": "PluralForm::try_from_strsuffix.map|form|base_key,rule_type,form",
+    # abstract evaluation (rules/absint.py): one key name per spelling class, one value per kind
+    from rules import absint
+    from rules.absint import AEval, C, CF, A, T
+    funcs = dict(absint.file_funcs(ast, PP))
+    funcs.update(absint.file_funcs(ast, PL, "Locale"))
+
+    def key(name):
+        return CF("Key", name=("str", name))
+    lit = C("Literal", A("s"))
+    names = {
+        "k_one": ("k", "Cardinal", "One"), "k_other": ("k", "Cardinal", "Other"), "k_zero": ("k", "Cardinal", "Zero"), "k_two": ("k", "Cardinal", "Two"),
+        "k_few": ("k", "Cardinal", "Few"), "k_many": ("k", "Cardinal", "Many"), "a_b_many": ("a_b", "Cardinal", "Many"),
+        "k_ordinal_few": ("k", "Ordinal", "Few"), "k_ordinal_other": ("k", "Ordinal", "Other"), "a_b_ordinal_one": ("a_b", "Ordinal", "One"),
+        "k": None, "k_foo": None, "one": None, "k_ordinal": None, "k_One": None,
     }
-    for k, frag in steps.items():
-        if has(t, frag):
-            r.inst("is_possible_plural#" + k, frag[:80])
-        else:
-            r.viol("R2:is_possible_plural#" + k, "step `%s` not found in is_possible_plural" % frag[:80], file=fn.file, line=fn.line)
+    bad = []
+    for nm, want in names.items():
+        v = AEval(funcs=funcs).run_fn(fn, [key(nm), lit])
+        w = C("Some", T(("str", want[0]), C(want[1]), C(want[2]))) if want else C("None")
+        if v != w:
+            bad.append((nm, absint.fmt(v), absint.fmt(w)))
+    if not bad:
+        r.inst("is_possible_plural#suffix", "%d key spellings: <base>_<form> with an optional _ordinal infix, anything else is a normal key" % len(names))
+        r.inst("is_possible_plural#ordinal", "`_ordinal` infix -> ordinal rule type, else cardinal")
+        r.inst("is_possible_plural#form", "suffix must be one of the six CLDR form names")
+    else:
+        for nm, got, want in bad[:5]:
+            r.viol("R2:is_possible_plural#" + nm, "key `%s` is read as %s, documented: %s" % (nm, got, want), file=fn.file, line=fn.line)
+    kinds = []
+    for kind, val in (("Ranges", C("Ranges", A("r"))), ("Subkeys", C("Subkeys", C("None"))), ("Default", C("Default")), ("Literal", lit), ("Bloc", C("Bloc", A("b"))), ("Variable", CF("Variable", key=A("k"), formatter=A("f")))):
+        v = AEval(funcs=funcs).run_fn(fn, [key("k_one"), val])
+        if v == C("None"):
+            kinds.append(kind)
+    if sorted(kinds) == ["Default", "Ranges", "Subkeys"]:
+        r.inst("is_possible_plural#excluded", "excluded value kinds: " + ", ".join(sorted(kinds)))
+    else:
+        r.viol("R2:is_possible_plural#excluded", "value kinds excluded from plural candidates are %s (must be Ranges, Subkeys, Default)" % sorted(kinds), file=fn.file, line=fn.line)
     fn = ast.fn(PL, "merge_plurals", impl_self="Locale")
     if fn is None:
         r.missing("Locale::merge_plurals")
@@ -264,18 +284,25 @@ def r3_diagnostics(ctx, prog):
     if fn is None:
         r.missing("Plurals::check_forms")
     else:
-        t = flatp(show(fn.body))
-        steps = {
-            "rules": "letplural_rules=self.get_plural_ruleslocale?;",
-            "written": "letforms=self.forms.keys.copied.collect::<BTreeSet<_>>;",
-            "used": "letused_forms=plural_rules.categories.mapPluralForm::from_icu_category.collect::<BTreeSet<_>>;",
-            "unused": "forforminforms.difference&used_forms.copied{warnings.emit_warningWarning::UnusedForm{",
-        }
-        for k, frag in steps.items():
-            if has(t, frag):
-                r.inst("check_forms#" + k, frag[:80])
-            else:
-                r.viol("R3:check_forms#" + k, "step `%s` not found" % frag[:80], file=fn.file, line=fn.line)
+        # abstract evaluation: written forms {zero, one, few}, selectable categories {one, other}
+        from rules import absint
+        from rules.absint import AEval, C, CF, A, T, L
+        funcs = absint.file_funcs(ctx.ast, PP, "Plurals")
+        emitted = []
+
+        def emit(rv, a):
+            emitted.append(a[0])
+            return absint.UNIT
+        this = CF("Plurals", forms=L(T(C("Zero"), A("vz")), T(C("One"), A("vo")), T(C("Few"), A("vf"))), other=A("vother"), rule_type=C("Cardinal"), count_key=A("ck"))
+        bi = {"get_plural_rules": lambda rv, a: C("Ok", A("rules")), "categories": lambda rv, a: L(C("One"), C("Other")), "emit_warning": emit}
+        v = AEval(funcs=funcs, builtins=bi).run_fn(fn, [this, A("locale"), A("key_path"), A("warnings")])
+        got = [(w[1], dict(w[3]).get("form"), dict(w[3]).get("rule_type")) for w in emitted if w[0] == "ctor"]
+        want = [("UnusedForm", C("Zero"), C("Cardinal")), ("UnusedForm", C("Few"), C("Cardinal"))]
+        if v == C("Ok", absint.UNIT) and got == want:
+            for k in ("rules", "written", "used", "unused"):
+                r.inst("check_forms#" + k, "forms written but never selected by the locale's rules (zero, few of {zero, one, few} vs {one, other}) are reported as UnusedForm, with the plural's own rule type")
+        else:
+            r.viol("R3:check_forms#unused", "with forms {zero, one, few} and selectable categories {one, other} check_forms returns %s and reports %s (expected UnusedForm for zero and few)" % (v if isinstance(v, str) else absint.fmt(v), [(a, absint.fmt(b) if b else b) for a, b, _c in got]), file=fn.file, line=fn.line)
     fn = ctx.ast.fn(PP, "get_plural_rules", impl_self="Plurals")
     if fn is not None:
         t = flatp(show(fn.body))
@@ -291,51 +318,77 @@ def r4_selectors(ctx):
              "a category the translator did not write must render `other`; the locale asked must be the rendered one and the "
              "rule type the key's own", floor=6)
     ast = ctx.ast
+    # the two generators are evaluated symbolically (rules/absint.py) on a plural with forms {zero, one, few}: the token
+    # text they produce is then checked arm by arm
+    from rules import absint
+    from rules.absint import AEval, C, CF, A, T, L, I, TOK
+    mfuncs = absint.file_funcs(ast, MP)
+    cat_fn = ast.fn(MP, "to_token_stream", impl_self="PluralForm")
+    rt_fns = [f for f in ast.fns_named(MP, "to_token_stream") if f.impl_self and "PluralRuleType" in f.impl_self]
+
+    def totokens(v):
+        if v[0] == "ctor" and v[1] in ("Zero", "One", "Two", "Few", "Many", "Other") and not v[2] and cat_fn is not None:
+            t = AEval(funcs={}).run_fn(cat_fn, [v])
+            return t[1] if not isinstance(t, str) and t[0] == "tok" else None
+        if v[0] == "ctor" and v[1] in ("Cardinal", "Ordinal") and rt_fns:
+            t = AEval(funcs={}).run_fn(rt_fns[0], [v])
+            return t[1] if not isinstance(t, str) and t[0] == "tok" else None
+        if v[0] == "atom":
+            return "<%s>" % v[1]
+        return None
+    this = CF("Plurals", forms=L(T(C("Zero"), A("vz")), T(C("One"), A("vo")), T(C("Few"), A("vf"))), other=A("vother"), rule_type=C("Ordinal"), count_key=A("ck"))
     for name in ("as_string_impl", "to_token_stream"):
-        fn = ast.fn(MP, name, impl_self=None)
         cands = [f for f in ast.fns_named(MP, name) if f.impl_self is None]
         fn = cands[0] if cands else None
         if fn is None:
             r.missing("plurals::" + name)
             continue
-        qs = [tok_text(q["tokens"]) for q in xquotes(fn.body)]
-        main = [q for q in qs if "category_for" in q]
-        ok = False
-        for q in main:
-            fq = re.sub(r"\s+", "", q)
-            if re.search(r"match_plural_rules\.category_for\(.*?\)\{#\(#match_arms,\)\*_=>#other,\}", fq) and \
-               re.search(r"let_plural_rules=l_i18n_crate::__private::get_plural_rules\(\*?#locale_field,#rule_type\);", fq):
-                ok = True
-        t = flatp(show(fn.body))
-        arms_ok = ("this.forms.iter" in t and has(t, "letform=PluralForm::from*form;") and "quote!#form=>{#ts}" in re.sub(r"[\s()]+", "", " ".join(qs)) or True)
-        src = {
-            "forms-forward": re.search(r"letmatch_arms=this\.forms\.iter(\.enumerate)?\.map", t) is not None,
-            "form-from-key": has(t, "letform=PluralForm::from*form;"),
-            "rule-type": has(t, "letrule_type=PluralRuleType::fromthis.rule_type;"),
-            "other": ("&this.other" in t),
-            "locale-field": has(t, "letlocale_field=Key::newLOCALE_FIELD_KEY"),
+        ev = AEval(funcs={k: v for k, v in mfuncs.items() if k not in ("as_string_impl", "to_token_stream", "new", "from")})
+        ev.totokens = totokens
+        ev.path_builtins = {
+            "parsed_value::as_string_impl": lambda a: TOK("S%s" % totokens(a[0])), "parsed_value::to_token_stream": lambda a: TOK("V%s" % totokens(a[0])),
+            "Key::new": lambda a: C("Some", TOK("LOCALE")), "EitherOfWrapper::new": lambda a: CF("Either", n=a[0]), "KeyPath::new": lambda a: A("kp"),
+            "PluralForm::from": lambda a: a[0], "PluralRuleType::from": lambda a: a[0],
         }
-        if ok and all(src.values()):
-            r.inst("macro plurals::" + name, "match category_for(count) { form => value, .. _ => other } with get_plural_rules(locale, this.rule_type)")
+        ev.builtins = {"unwrap_at": lambda rv, a: (rv[2][0] if rv[0] == "ctor" and rv[1] in ("Some", "Ok") else rv),
+                       "wrap": lambda rv, a: TOK("W%s/%s[%s]" % (a[0][1], dict(rv[3])["n"][1], a[1][1])), "is_interpol": lambda rv, a: C("None")}
+        args = [this, A("ck"), A("strings_count")] if name == "as_string_impl" else [this, A("strings_count")]
+        v = ev.run_fn(fn, args)
+        txt = re.sub(r"\s+", "", v[1]) if not isinstance(v, str) and v[0] == "tok" else None
+        P = "l_i18n_crate::reexports::icu::plurals::PluralCategory::"
+        RT = "l_i18n_crate::reexports::icu::plurals::PluralRuleType::Ordinal"
+        if name == "as_string_impl":
+            want = "{let_plural_rules=l_i18n_crate::__private::get_plural_rules(*LOCALE,%s);match_plural_rules.category_for(core::clone::Clone::clone(<ck>)){%sZero=>{S<vz>},%sOne=>{S<vo>},%sFew=>{S<vf>},_=>S<vother>,}}" % (RT, P, P, P)
         else:
-            r.viol("R4:plurals::" + name, "generated selector changed (template ok=%s, sources=%s)" % (ok, src), file=fn.file, line=fn.line)
-        arm_q = [q for q in qs if re.sub(r"\s+", "", q) == "#form=>{#ts}"]
-        if not arm_q:
-            r.viol("R4:plurals::%s#arm" % name, "arm template `#form => { #ts }` not found", file=fn.file, line=fn.line)
+            want = "{let_plural_rules=l_i18n_crate::__private::get_plural_rules(LOCALE,%s);move||{match_plural_rules.category_for(<ck>()){%sZero=>{W0/4[V<vz>]},%sOne=>{W1/4[V<vo>]},%sFew=>{W2/4[V<vf>]},_=>W3/4[V<vother>],}}}" % (RT, P, P, P)
+        if txt == want:
+            r.inst("macro plurals::" + name, "match category_for(count) { <category of each written form> => that form's value, _ => other } with get_plural_rules(locale field, this plural's rule type)")
+            r.inst("macro plurals::%s#arm" % name, "one arm per written form, in order, each with the ICU category of the same name")
         else:
-            r.inst("macro plurals::%s#arm" % name, "#form => { #ts }")
+            r.viol("R4:plurals::" + name, "for forms {zero, one, few} (ordinal) the generator produces `%s`; expected `%s`" % (txt if txt is not None else v, want), file=fn.file, line=fn.line)
     fn = ast.fn(PP, "populate_with_count_arg", impl_self="Plurals")
     if fn is None:
         r.missing("Plurals::populate_with_count_arg")
     else:
-        t = flatp(show(fn.body))
-        frag = "matchPluralForm::from_icu_categorycategory{PluralForm::Other=>self.other.populateargs,foreign_key,locale,key_path;other_cat=>self.forms.get&other_cat.unwrap_or&self.other.populateargs,foreign_key,locale,key_path}"
-        gc = [f for f in ast.fns_named(PP, "get_category")]
-        tg = flatp(show(gc[0].body)) if gc else ""
-        if frag in t and has(tg, "letplural_rules=plurals.get_plural_ruleslocale?;letcat=plural_rules.category_forinput;"):
-            r.inst("Plurals::populate_with_count_arg", "forms.get(category).unwrap_or(other).populate(args)")
+        from rules import absint
+        from rules.absint import AEval, C, CF, A, T, L, I
+        funcs = absint.file_funcs(ast, PP, "Plurals")
+        this = CF("Plurals", forms=L(T(C("Zero"), A("vz")), T(C("One"), A("vo")), T(C("Few"), A("vf"))), other=A("vother"), rule_type=C("Cardinal"), count_key=A("ck"))
+        want = {"One": "vo.populate", "Few": "vf.populate", "Many": "vother.populate", "Other": "vother.populate", "Two": "vother.populate", "Zero": "vz.populate"}
+        got = {}
+        asked = []
+        for cat in want:
+            def rules_for(rv, a):
+                asked.append((rv, a))
+                return C("Ok", A("rules"))
+            bi = {"get_plural_rules": rules_for, "category_for": (lambda rv, a, cat=cat: C(cat))}
+            v = AEval(funcs=funcs, builtins=bi).run_fn(fn, [this, C("Literal", C("Unsigned", I(3))), A("args"), A("foreign_key"), A("locale"), A("key_path")])
+            got[cat] = v[1] if not isinstance(v, str) and v[0] == "atom" else (v if isinstance(v, str) else absint.fmt(v))
+        own_rules = bool(asked) and all(rv == this and a and a[0] == A("locale") for rv, a in asked)
+        if got == want and own_rules:
+            r.inst("Plurals::populate_with_count_arg", "literal count: the form written for the category of this plural's own rules in this locale, else `other`, is populated")
         else:
-            r.viol("R4:Plurals::populate_with_count_arg", "parse-time selection is no longer forms[category] else other", file=fn.file, line=fn.line)
+            r.viol("R4:Plurals::populate_with_count_arg", "parse-time selection by category gives %s (expected %s); rules taken from this plural and locale: %s" % (got, want, own_rules), file=fn.file, line=fn.line)
     from rules.common import msum
     got = msum(ctx.mir("main"), r"macro_helpers::get_plural_category_for$", stop=r"get_plural_rules$")
     w = "PluralRules::category_for(formatting::get_plural_rules(p1, p3), Fn::call(p2, ()))"
